@@ -144,6 +144,9 @@ def coq_term(case, obs):
     if not base.startswith('MC '):
         return base
     logs = [obs['taps'].get(str(i), []) for i in range(1, len(obs.get('tap_names', {})) + 1)]
+    # the predicate of the C03 theorems, evaluated in Coq on every tapped trace of the real code (errors included)
+    wf = 'MCWf [%s]' % '; '.join('[' + '; '.join(muxlib.coq_oev(e) for e in l if e[0] != 'completed') + ']' for l in logs)
+    base = 'MCAnd (%s) (%s)' % (base, wf)
     special = any(e[0] == 'fatal' for l in logs for e in l) or muxprop.has_fatal(obs['steps']) or \
         'route' in muxprop.kinds(case['ast'])
     if special or not logs:
@@ -203,7 +206,7 @@ def describe(cases, obs):
 
 
 CLAIM = {
-    'text': 'Theorems (Coq): (1) for every pipeline P of the grammar and every well-formed input trace, the output trace is well-formed (create / items / exactly one completion per key, no event for a non-live key, no two live keys sharing a slot) and leaves the same keys live as the input; hence every key is completed when the stream completes. (2) C03_every_boundary: the trace at EVERY boundary of EVERY pipeline - after each operator, at the head of each inner pipeline of group_by / roll / split / time_split, at the head of each tee_map branch, to any nesting depth - as computed by Boundaries.bnd_pipe, is well-formed. It rests on the head theorems (group_by, the one-segment heads split / time_split / roll w = s, and the sliding roll, whose proof instantiates the inner machine with a protocol monitor and reads its verdict out of roll_refines) and on lemmas that the head feed functions are what the composite machines hand to ANY inner machine. Tie to the code: a recording tap after EVERY operator, at the head/tail of every inner pipeline and tee branch; each tapped trace is (a) compared event for event with the corresponding element of bnd_pipe evaluated in Coq (MCBnd) and (b) judged by a model-free protocol monitor; random pipelines plus all nestings of the 6 composite kinds to depth 2 (thorough 3); public entry points and chained store scopes also exercised.',
+    'text': 'Theorems (Coq): (1) for every pipeline P of the grammar and every well-formed input trace, the output trace is well-formed (create / items / exactly one completion per key, no event for a non-live key, no two live keys sharing a slot) and leaves the same keys live as the input; hence every key is completed when the stream completes. (2) C03_every_boundary: the trace at EVERY boundary of EVERY pipeline - after each operator, at the head of each inner pipeline of group_by / roll / split / time_split, at the head of each tee_map branch, to any nesting depth - as computed by Boundaries.bnd_pipe, is well-formed. It rests on the head theorems (group_by, the one-segment heads split / time_split / roll w = s, and the sliding roll, whose proof instantiates the inner machine with a protocol monitor and reads its verdict out of roll_refines) and on lemmas that the head feed functions are what the composite machines hand to ANY inner machine. Tie to the code: a recording tap after EVERY operator, at the head/tail of every inner pipeline and tee branch; each tapped trace is (a) compared event for event with the corresponding element of bnd_pipe evaluated in Coq (MCBnd), (b) judged in Coq by the protocol predicate of the theorems itself (MCWf: allowed_seq through its proved boolean reflection) and (c) judged by a model-free protocol monitor in Python; random pipelines plus all nestings of the 6 composite kinds to depth 2 (thorough 3); public entry points, chained store scopes, re-subscription of the pipeline object and lifetimes ended by a mux error through every composite operator (slot-level model compared on the output; outside the theorems, whose traces do not re-create a live key) also exercised.',
     'note': 'Trusted: Coq kernel+VM; hand-written model tied by correspondence; taps are harness-defined pass-through operators; errors_handled fragment.',
     'technique': 'Coq proof (forward-simulation refinement of a slot-level model by per-key local machines, list-level induction) + vm_compute correspondence against /repo + model-free oracle',
 }
